@@ -202,9 +202,10 @@ class FakeGraph:
         c, P = len(self.children(f)), self.srv["P"]
         if c == 0:
             return 1
+        lead = 1 if self.srv.get("lead") else 0      # an empty first page with a nextLink
         if self.srv["tail"] and c % P == 0:
-            return c // P + 1
-        return (c + P - 1) // P
+            return lead + c // P + 1
+        return lead + (c + P - 1) // P
 
     def resolve(self, path):
         f = 0
@@ -249,7 +250,8 @@ class FakeGraph:
     def page_body(self, f, p, drive):
         P = self.srv["P"]
         ch = self.children(f)
-        items = ch[(p - 1) * P: p * P]
+        q = p - (1 if self.srv.get("lead") and ch else 0)
+        items = ch[(q - 1) * P: q * P] if q >= 1 else []
         doc = {"@odata.context": self.GRAPH + "/$metadata#x", "value": [self.item_json(i) for i in items]}
         nxt = p < self.npages(f)
         if nxt:
@@ -692,7 +694,7 @@ def _walk_cases(states, faults, keep, rng, prefix):
                 return -1
             return path[-1][0] - 96 if path else 0
         base.append(({"n": srv["n"], "parent": list(srv["parent"]), "kind": list(srv["kind"]), "P": srv["P"],
-                      "tail": srv["tail"]},
+                      "tail": srv["tail"], "lead": srv["lead"]},
                      {"call": job["call"], "targets": [node(p) for p in job["targets"]]}, nreq["at"]))
     base.sort(key=lambda c: json.dumps(c, sort_keys=True))
     faults = sorted(faults, key=lambda f: json.dumps(f, sort_keys=True))
@@ -770,7 +772,9 @@ def _random_cases(seed, count):
             deep = rng.random() < 0.5
             parent.append(folders[-1] if deep and rng.random() < 0.5 else rng.choice(folders))
             kind.append(rng.choice(["file", "file", "file", "folder", "folder", "other"]))
-        srv = {"n": n, "parent": parent, "kind": kind, "P": rng.randint(1, 7), "tail": rng.random() < 0.3}
+        srv = {"n": n, "parent": parent, "kind": kind, "P": rng.randint(1, 7), "tail": rng.random() < 0.3, "lead": False}
+        if not srv["tail"] and n and rng.random() < 0.25:
+            srv["lead"] = True
         call = rng.choice(ALL_CALLS)
         folders = [j for j in range(1, n + 1) if kind[j - 1] == "folder"]
         files = [j for j in range(1, n + 1) if kind[j - 1] == "file"]
@@ -813,7 +817,7 @@ def _repo_test_cases():
     nf = {"at": -1, "kind": "none", "code": 0}
     def lib(parent, kind, names, P=10, cr=None, mo=None):
         n = len(parent)
-        return {"srv": {"n": n, "parent": parent, "kind": kind, "P": P, "tail": False}, "names": names,
+        return {"srv": {"n": n, "parent": parent, "kind": kind, "P": P, "tail": False, "lead": False}, "names": names,
                 "cr": cr or [miss] * n, "mo": mo or [miss] * n}
     out = []
     out.append(("test_list_all_files_empty", lib([], [], []), nf))
@@ -895,7 +899,7 @@ def run(ctx):
     by_id = {t["id"]: t for t in traces}
     traces = [by_id[str(c["id"])] for c in all_cases]
     ctx.log(f"replayed {len(traces)} cases + {len(mev)} matches() calls in {time.time() - t0:.1f}s")
-    hdr0 = {"srv": {"n": 0, "parent": [], "kind": [], "name": [], "cr": [], "mo": [], "P": 1, "tail": False},
+    hdr0 = {"srv": {"n": 0, "parent": [], "kind": [], "name": [], "cr": [], "mo": [], "P": 1, "tail": False, "lead": False},
             "job": {"call": "all", "targets": [], "flt": filters[0], "since": 0, "exts": []},
             "fault": {"at": -1, "kind": "none", "code": 0}}
     mtraces = [{"id": f"match:{k}", "hdr": hdr0, "ev": mev[k:k + 300]} for k in range(0, len(mev), 300)]
@@ -979,7 +983,7 @@ def run(ctx):
         f = t["hdr"]["fault"]
         if res or f["at"] >= 0:
             s = t["hdr"]["srv"]
-            ev.nontrivial((t["hdr"]["job"]["call"], tuple(s["parent"]), tuple(s["kind"]), s["P"], s["tail"],
+            ev.nontrivial((t["hdr"]["job"]["call"], tuple(s["parent"]), tuple(s["kind"]), s["P"], s["tail"], s["lead"],
                            f["at"], f["kind"], f["code"], len(t["hdr"]["job"]["targets"])))
     for t in (traces[0], traces[len(cases) // 2], traces[len(cases)], traces[-1]):
         ev.sample({"id": t["id"], "call": t["hdr"]["job"]["call"], "n": t["hdr"]["srv"]["n"], "P": t["hdr"]["srv"]["P"],
